@@ -475,7 +475,7 @@ def map_rules(chk, program):
                   expected='add_data(src, dest, priority, timestamp, ...)', found=[show(x) for x in a[:4]])
     # table: which identity is attached to the claim message itself, per state of the map
     if adds:
-        sf = F.split_facts(program); cf = F.ctor_facts(program)
+        sf, cf = F.facts_or_none(program)
         adp_ = [a_.arg for a_ in program.fn('message', 'NMEA2000Message.add_data').args.args][1:]
         pos_ = list(adds[0][2][2]) + [None] * len(adp_)
         kw_ = dict(adds[0][2][3])
@@ -514,18 +514,20 @@ def _ite_leaves(t):
     return [t]
 
 def mfr_rules(chk, program, consts, stages):
-    sf = F.split_facts(program)
-    cf = F.ctor_facts(program)
+    sf, cf = F.facts_or_none(program)
     db = program.db
     ordinary = [d for d in db.defs if not d.group.complex and d.pgn != consts['ISO_CLAIM_PGN'] and len(d.group.defs) == 1]
     P, ID = ordinary[0].pgn, ordinary[0].id
-    # MFR-NORM: constructor lower-cases both lists
-    init = cf['fn']
-    for attr in ('exclude_manufacturer_code', 'include_manufacturer_code'):
-        a = [n for n in ast.walk(init) if isinstance(n, ast.Assign) and any(isinstance(t, ast.Attribute) and t.attr == attr for t in n.targets)]
-        ok = len(a) == 1 and isinstance(a[0].value, (ast.SetComp, ast.ListComp)) and isinstance(a[0].value.elt, ast.Call) and isinstance(a[0].value.elt.func, ast.Attribute) \
-            and a[0].value.elt.func.attr == 'lower' and isinstance(a[0].value.generators[0].iter, ast.Name) and a[0].value.generators[0].iter.id == attr
-        chk.check(ok, 'MFR-NORM', f"__init__::{attr}", file=DEC, line=a[0].lineno if a else init.lineno, func='__init__', expected='{k.lower() for k in <list>} (a copy, lower-cased)', found=ast.unparse(a[0].value) if a else None)
+    # MFR-NORM: constructor lower-cases both lists -- decided on the interpreted constructor
+    from . import absint as A
+    init = program.fn('decoder', f"{CLS}.__init__")
+    try:
+        at = F.interp_ctor(program, mfr_excl=['GarMin', 'AIRMAR'], mfr_incl=[])
+        at2 = F.interp_ctor(program, mfr_excl=[], mfr_incl=['GarMin'])
+        for attr, got, want in (('exclude_manufacturer_code', at.get('exclude_manufacturer_code'), ['airmar', 'garmin']), ('include_manufacturer_code', at2.get('include_manufacturer_code'), ['garmin'])):
+            chk.check(got is not None and sorted(got) == want, 'MFR-NORM', f"__init__::{attr}", file=DEC, line=init.lineno, func='__init__', expected=f"the given codes lower-cased: {want}", found=got)
+    except (A.Unknown, A.RaiseSignal) as u:
+        chk.unknown('MFR-NORM', '__init__', f"constructor not interpretable: {u}", DEC, init.lineno)
     n = 0
     mf = 'Garmin'
     cases = []
